@@ -1328,6 +1328,7 @@ def _msg_root(i):
     an.state_budget = 6000
     an.peel = True
     an.track_wraps = True
+    an.taint_exact = True
     an.policy = (lambda fr, g: "inline" if g.file in fileset else "modular")
     entry, fr, outs = an.analyse_root(f)
     for k in ("states", "paths", "inlined"):
